@@ -81,6 +81,12 @@ func (f *Frame) enterLoop(li *loopInfo, b *ssa.BasicBlock, preds []*ssa.BasicBlo
 		vc.assume(implies(reach, ctx.evalBool(inv.E)))
 	}
 	if f.ct != nil {
+		for _, pr := range f.en.activeClauses(f.ct.LoopPresume[li.n], f.ct) {
+			vc.assume(implies(reach, ctx.evalBool(pr.E)))
+			vc.assumed = append(vc.assumed, fmt.Sprintf("presumed loop fact in %s loop %d (not checked): %s", f.fn.Name(), li.n, pr.Src))
+		}
+	}
+	if f.ct != nil {
 		if dec, ok := f.ct.LoopDec[li.n]; ok {
 			li.decAt = vc.define(f.prefix+fmt.Sprintf("measure.%d", li.n), "Int", ctx.eval(dec.E).E)
 		}
@@ -134,9 +140,17 @@ func (f *Frame) backEdge(li *loopInfo, latch *ssa.BasicBlock) {
 			}
 		}
 	}
+	paths := f.splitConds(latch)
 	for k, inv := range f.loopInvs(li.n) {
 		name := f.callPath + fmt.Sprintf("inv.step.%d.%s%s", li.n, clauseName(inv, k), suffix)
-		vc.oblige(name, "inv.step", implies(cond, ctx.evalBool(inv.E)), clauseProps(inv, f.ctProps()), inv.Where, "loop invariant preserved: "+inv.Src)
+		goal := ctx.evalBool(inv.E)
+		if len(paths) <= 1 {
+			vc.oblige(name, "inv.step", implies(cond, goal), clauseProps(inv, f.ctProps()), inv.Where, "loop invariant preserved: "+inv.Src)
+			continue
+		}
+		for pi, pc := range paths {
+			vc.oblige(fmt.Sprintf("%s/path#%d", name, pi+1), "inv.step", implies(and(pc, cond), goal), clauseProps(inv, f.ctProps()), inv.Where+" / via "+f.splitWhere[pi], "loop invariant preserved: "+inv.Src)
+		}
 	}
 	if f.ct != nil {
 		if dec, ok := f.ct.LoopDec[li.n]; ok {
@@ -290,7 +304,7 @@ func (f *Frame) havocLoop(li *loopInfo, h *Heap, reach string) {
 		case *ssa.Alloc, *ssa.MakeSlice, *ssa.MakeMap, *ssa.Convert:
 			// allocation initialises fresh rows only; handled by freshness (rows >= now are unconstrained anyway)
 		case *ssa.Next:
-			add("|E iterpos|", "Int", "")
+			add(q("E iterpos"), "Int", "")
 		case *ssa.Call:
 			c := i.Common()
 			if c.IsInvoke() {
@@ -329,7 +343,7 @@ func (f *Frame) havocLoop(li *loopInfo, h *Heap, reach string) {
 			case *ssa.Function:
 				if inLoopFrame {
 					// precise handling for contracts with evaluable modifies
-					if ct := f.en.cs.Funcs[funcKey(callee)]; ct != nil && !ct.Inline && !ct.ModAll {
+					if ct := f.en.cs.Funcs[funcKey(callee)]; ct != nil && !ct.Inline && !ct.ModAll && !ct.ModInferred {
 						ok := true
 						var args []Val
 						for _, a := range c.Args {
@@ -351,7 +365,12 @@ func (f *Frame) havocLoop(li *loopInfo, h *Heap, reach string) {
 									all = true
 								}
 								for _, t := range ts {
-									add(t.comp, t.sort, t.ref)
+									if lvalueReadsHeap(m) {
+										// the designated row depends on memory the loop may change
+										add(t.comp, t.sort, "")
+									} else {
+										add(t.comp, t.sort, t.ref)
+									}
 								}
 							}
 							if !ctx.failed {
@@ -375,6 +394,20 @@ func (f *Frame) havocLoop(li *loopInfo, h *Heap, reach string) {
 		if ct := f.en.cs.Funcs[key]; ct != nil && !ct.Inline {
 			if ct.ModAll {
 				all = true
+				return
+			}
+			if ct.ModInferred {
+				eff := f.en.effects(fn)
+				if eff.all {
+					all = true
+					return
+				}
+				for _, comp := range sortedKeys(eff.comps) {
+					if s := eff.comps[comp]; s == "MapDom" || s == "MapVal" {
+						f.vc.mapSort(comp, f.en.mapSortMemo[comp])
+					}
+					add(comp, eff.comps[comp], "")
+				}
 				return
 			}
 			for _, m := range ct.Modifies {
@@ -411,7 +444,11 @@ func (f *Frame) havocLoop(li *loopInfo, h *Heap, reach string) {
 			scanInstr(ins, 0, map[*ssa.Function]bool{}, true)
 		}
 	}
-	// explicit loop modifies (adds precision is not possible; only used to force havoc)
+	// allocation counter moves forward (before the havoc: havocked cells may refer to objects
+	// allocated in earlier iterations)
+	n := vc.fresh(f.prefix+"now", "Int")
+	vc.assume(app(">=", n, h.now))
+	h.now = n
 	if all {
 		vc.havocAll(h)
 		vc.notes = append(vc.notes, fmt.Sprintf("%s: loop %d havocs the whole heap", f.fn.Name(), li.n))
@@ -431,10 +468,6 @@ func (f *Frame) havocLoop(li *loopInfo, h *Heap, reach string) {
 			}
 		}
 	}
-	// allocation counter moves forward
-	n := vc.fresh(f.prefix+"now", "Int")
-	vc.assume(app(">=", n, h.now))
-	h.now = n
 }
 
 // addStoreByType records a store in a callee (no value information): whole component.
@@ -497,7 +530,7 @@ func (f *Frame) addStoreByType(addr ssa.Value, add func(comp, sort, ref string))
 func (f *Frame) rangeInit(i *ssa.Range, reach string, h *Heap) Val {
 	ref := f.newRef(h)
 	x := f.val(i.X)
-	f.vc.setComp(h, "|E iterpos|", "Int", store2(f.vc.cur(h, "|E iterpos|", "Int"), ref, "0", "0"))
+	f.vc.setComp(h, q("E iterpos"), "Int", store2(f.vc.cur(h, q("E iterpos"), "Int"), ref, "0", "0"))
 	if _, ok := i.X.Type().Underlying().(*types.Map); ok {
 		f.vc.errorf("%s: range over map is outside the supported subset", f.fn.Name())
 	}
@@ -513,13 +546,16 @@ func (f *Frame) rangeNext(i *ssa.Next, reach string, h *Heap) Val {
 		return f.freshVal("next", i.Type(), h)
 	}
 	s := it.Tuple[0].E
-	cur := vc.cur(h, "|E iterpos|", "Int")
+	cur := vc.cur(h, q("E iterpos"), "Int")
 	pos := vc.define(f.prefix+"itpos", "Int", sel2(cur, pref(it.E), "0"))
 	ok := app("<", pos, app("slen", s))
 	b := app("sat", s, pos)
 	r := vc.define(f.prefix+"rune", "Int", ite(app("<", b, "128"), b, app("runeat", s, pos)))
 	w := vc.define(f.prefix+"runew", "Int", ite(app("<", b, "128"), "1", app("runew", s, pos)))
-	vc.setComp(h, "|E iterpos|", "Int", store2(cur, pref(it.E), "0", ite(ok, app("+", pos, w), pos)))
+	vc.setComp(h, q("E iterpos"), "Int", store2(cur, pref(it.E), "0", ite(ok, app("+", pos, w), pos)))
+	// A-UTF8: a rune ends inside the string and its continuation bytes are >= 0x80
+	vc.assume(implies(ok, app("<=", app("+", pos, w), app("slen", s))))
+	vc.assume(fmt.Sprintf("(forall ((j!u Int)) (! (=> (and (< %s j!u) (< j!u (+ %s %s))) (>= (sat %s j!u) 128)) :pattern ((sat %s j!u))))", pos, pos, w, s, s))
 	res.Tuple = []Val{{S: "Bool", E: ok, T: types.Typ[types.Bool]}, {S: "Int", E: pos, T: types.Typ[types.Int]}, {S: "Int", E: r, T: types.Typ[types.Rune]}}
 	return res
 }
@@ -542,7 +578,7 @@ func (f *Frame) frameEntries() ([]modEntry, bool) {
 	if root.ct == nil {
 		return nil, false
 	}
-	if root.ct.ModAll {
+	if root.ct.ModAll || root.ct.ModInferred {
 		root.modAll = true
 		return nil, true
 	}
@@ -574,7 +610,7 @@ func (f *Frame) frameCheckAt(comp, ref, idx, reach string, pos token.Pos) {
 	if !f.frameOn() {
 		return
 	}
-	if strings.HasPrefix(ref, "|") && strings.Contains(ref, "ref#") {
+	if !strings.HasPrefix(ref, "(") && strings.Contains(ref, "ref!") {
 		return // allocated in this activation (syntactically evident)
 	}
 	entries, all := f.frameEntries()
@@ -582,7 +618,7 @@ func (f *Frame) frameCheckAt(comp, ref, idx, reach string, pos token.Pos) {
 		return
 	}
 	root := f.frameRoot()
-	ok := []string{app(">=", ref, root.entry.now)}
+	ok := []string{app(">=", ref, root.entry.now), eq(ref, "0")}
 	for _, e := range entries {
 		if e.comp != comp {
 			continue
@@ -633,4 +669,38 @@ func (f *Frame) frameCheckAll(reach string, pos token.Pos) {
 	if !all {
 		f.check("modifies", not(reach), pos, "callee may modify anything but the caller's modifies clause is restricted")
 	}
+}
+
+// lvalueReadsHeap: the modifies entry designates memory through a heap read (elems(x.f),
+// x.f.g, ...), so the designated cells can differ from iteration to iteration.
+func lvalueReadsHeap(e SExpr) bool {
+	switch x := e.(type) {
+	case SCall:
+		for _, a := range x.Args {
+			if containsFieldRead(a) {
+				return true
+			}
+		}
+	case SField:
+		return containsFieldRead(x.X)
+	case SUnary:
+		return containsFieldRead(x.X)
+	}
+	return false
+}
+
+func containsFieldRead(e SExpr) bool {
+	switch x := e.(type) {
+	case SField:
+		return true
+	case SIndex:
+		return true
+	case SCall:
+		return true
+	case SUnary:
+		return containsFieldRead(x.X)
+	case SAs:
+		return containsFieldRead(x.X)
+	}
+	return false
 }
